@@ -2526,6 +2526,13 @@ impl Checker {
         let mut out = Vec::new();
         if crate::oracles_restore::check_prune(world, step, &mut out) {
             self.probes.hit("prunes");
+            if let Some((jobs, workers)) = world.last_prune_live.borrow().as_ref() {
+                match crate::oracles_restore::check_prune_batched(world, jobs, workers, step, &mut out) {
+                    Some(true) => self.probes.hit("prune_of_derived_journal_with_batch_spanning_jobs"),
+                    Some(false) => {}
+                    None => self.probes.hit("prune_batched_variant_not_built"),
+                }
+            }
             let live = self.model.jobs.values().filter(|j| !(j.all_terminal() && !j.open)).count();
             if live > 0 && self.completed_jobs.len() > 0 {
                 self.probes.hit("prune_with_live_and_completed_jobs");
